@@ -65,9 +65,16 @@ type Pipe struct {
 	EOFWithData bool // last segment arrives together with the end condition
 	FailOnce    bool // only the WFailAt-th write call fails; later ones are accepted (and counted in AfterErr)
 	NetErr      bool // injected failures are net.Errors with Timeout() and Temporary() true
-	ZeroReads   bool // now and then a Read returns (0, nil): nothing happened, legal for an io.Reader (never twice in a row)
-	lastZero    bool
-	zeroSalt    uint64
+	// Transient: byte ranges [from, to) of In inside which one Read (the
+	// first that starts there, chosen by TransientSalt) fails with a
+	// temporary net.Error and delivers nothing; the next Read goes on as if
+	// nothing had happened (an expired read deadline that the application
+	// extends).
+	Transient     [][2]int
+	transientDone bool
+	ZeroReads     bool // now and then a Read returns (0, nil): nothing happened, legal for an io.Reader (never twice in a row)
+	lastZero      bool
+	zeroSalt      uint64
 
 	CutAt   int // -1: none
 	CutKind int
@@ -158,6 +165,15 @@ func (p *Pipe) Read(b []byte) (int, error) {
 		return 0, nil
 	}
 	p.lastZero = false
+	if !p.transientDone {
+		for _, rg := range p.Transient {
+			if p.pos >= rg[0] && p.pos < rg[1] {
+				p.transientDone = true
+				p.R.Fault("transient_read_error")
+				return 0, ErrInjectedNet
+			}
+		}
+	}
 	avail := p.limit() - p.pos
 	if avail <= 0 {
 		p.R.D.Add(uint64(p.pos)<<8 | 0xE0)
